@@ -13,6 +13,7 @@ package main
 import (
 	"flag"
 	"fmt"
+	"math"
 	"reflect"
 	"strings"
 
@@ -124,11 +125,19 @@ func runFn(name string, args []interface{}) fnCase {
 		c.Kind = "val"
 		if s, ok := res.([]interface{}); ok {
 			c.Val = deepCopy(s)
+		} else if nonFinite(res) {
+			// never the mathematically defined result on finite arguments
+			c.Kind, c.Text = "panic", fmt.Sprintf("non-finite result %v", res)
 		} else {
 			c.Val = res
 		}
 	}
 	return c
+}
+
+func nonFinite(v interface{}) bool {
+	f, ok := v.(float64)
+	return ok && (math.IsNaN(f) || math.IsInf(f, 0))
 }
 
 func obsCoq(prefix, kind string, v interface{}) (string, bool) {
@@ -189,6 +198,8 @@ func runExpr(ev *cmd.VerifC11Evaluator, e *audgen.Expr, env map[string]interface
 		c.Kind = "val"
 		if s, ok := res.([]interface{}); ok {
 			c.Val = deepCopy(s)
+		} else if nonFinite(res) {
+			c.Kind, c.Text = "panic", fmt.Sprintf("non-finite result %v", res)
 		} else {
 			c.Val = res
 		}
@@ -203,6 +214,17 @@ func (c *exprCase) coq() (string, bool) {
 }
 
 // ---------------------------------------------------------------- processAssignments
+
+// clauseCase: was a clause accepted by the real parser?
+type clauseCase struct {
+	Cfg            string
+	Written        string // the count as written
+	Decimal        int    // its decimal reading
+	Mode           string
+	ExpectAccepted bool
+	Accepted       bool
+	Err            string
+}
 
 type assignCase struct {
 	Cfg      string
@@ -343,6 +365,25 @@ func main() {
 			continue
 		}
 		name := arrNames[rng.Intn(len(arrNames))]
+		if i%7 == 3 {
+			// windows of boolean verdicts: all false, all true, mixed,
+			// possibly next to negative numbers and nils only
+			name = []string{"min", "max", "sum", "avg", "med", "max", "min"}[rng.Intn(7)]
+			var args []interface{}
+			kind := rng.Intn(3)
+			for k := 1 + rng.Intn(5); k > 0; k-- {
+				switch {
+				case rng.Intn(5) == 0:
+					args = append(args, nil)
+				case rng.Intn(4) == 0:
+					args = append(args, []float64{-3.25, -2, -1, -0.5}[rng.Intn(4)])
+				default:
+					args = append(args, kind == 1 || (kind == 2 && rng.Intn(2) == 0))
+				}
+			}
+			addFn(name, args)
+			continue
+		}
 		withBools := rng.Intn(3) == 0
 		g := newValGen(rng, name == "sorted" && withBools)
 		g.pNil = []float64{0, 0.1, 0.3}[rng.Intn(3)]
@@ -422,6 +463,36 @@ func main() {
 	// ---- 1d. processAssignments directly
 	var assignItems []string
 	var assignCases []assignCase
+	// the clause-level tie: the count as WRITTEN (leading zeros, decimal) is
+	// the count the clause keeps; a count of zero is refused
+	var clauseCases []clauseCase
+	type assignJob struct {
+		c        *assignCfg
+		steps    [][]cmd.VerifC11In
+		spelling *countSpelling
+	}
+	var jobs []assignJob
+	modes4 := []string{"first", "last", "top", "bottom"}
+	var spells []countSpelling
+	spells = append(spells, fixedSpellings...)
+	for i := 0; i < 12; i++ {
+		n := 1 + rng.Intn(20)
+		spells = append(spells, countSpelling{Text: fmt.Sprintf("%0*d", 1+rng.Intn(5), n), N: n, Accept: true})
+	}
+	for i := range spells {
+		sp := spells[i]
+		mode := modes4[(i+int(*seed))%4]
+		if sp.N > 30 {
+			mode = "last"
+		}
+		var steps [][]cmd.VerifC11In
+		for k := 0; k < sp.N+4; k++ {
+			// distinct values with a few ties, neither ascending nor descending
+			v := float64((k*7)%(sp.N+5)) / 2
+			steps = append(steps, []cmd.VerifC11In{{Name: "q1", Val: v}})
+		}
+		jobs = append(jobs, assignJob{c: spellingConfig(mode, sp), steps: steps, spelling: &spells[i]})
+	}
 	for i := 0; i < nAssign; i++ {
 		c := assignConfig(rng)
 		g := newValGen(rng, false)
@@ -437,13 +508,23 @@ func main() {
 			}
 			steps = append(steps, st)
 		}
+		jobs = append(jobs, assignJob{c: c, steps: steps})
+	}
+	for _, job := range jobs {
+		c, steps := job.c, job.steps
+		nsteps := len(steps)
 		text := c.text()
 		res := cmd.VerifC11Assign(text, "al", c.Inputs, steps)
+		if job.spelling != nil {
+			clauseCases = append(clauseCases, clauseCase{Cfg: text, Written: job.spelling.Text, Decimal: job.spelling.N,
+				Mode: c.Clauses[0].Mode, ExpectAccepted: job.spelling.Accept, Accepted: res.ParseErr == "", Err: res.ParseErr})
+			stats["clause-count-spellings"]++
+		} else if res.ParseErr != "" {
+			// every generated configuration is valid by construction
+			clauseCases = append(clauseCases, clauseCase{Cfg: text, ExpectAccepted: true, Accepted: false, Err: res.ParseErr})
+		}
 		if res.ParseErr != "" {
 			stats["assign-parse-rejected"]++
-			if stats["assign-parse-rejected"] <= 3 {
-				fmt.Println("assign parse rejected:", res.ParseErr, "\n"+text)
-			}
 			continue
 		}
 		ac := assignCase{Cfg: text, Flat: c.Flat, Steps: steps, Results: res.Steps}
@@ -542,15 +623,14 @@ func main() {
 		sinks, perr := cmd.VerifSinks(text)
 		if perr != "" {
 			stats["chain-parse-rejected"]++
-			if stats["chain-parse-rejected"] <= 3 {
-				fmt.Println("parse rejected:", perr, "\n"+text)
-			}
+			clauseCases = append(clauseCases, clauseCase{Cfg: text, ExpectAccepted: true, Accepted: false, Err: perr})
 			continue
 		}
 		es = audgen.FilterSinks(es, sinks)
 		res := cmd.VerifAudition(text, audgen.ToVerifEvents(es), false, false)
 		if res.ParseErr != "" {
 			stats["chain-parse-rejected"]++
+			clauseCases = append(clauseCases, clauseCase{Cfg: text, ExpectAccepted: true, Accepted: false, Err: res.ParseErr})
 			continue
 		}
 		coll, judge := audgen.CoqOuts(res.Outs, len(es))
@@ -640,7 +720,7 @@ func main() {
 			"Definition assign_cases : list assign_case := "+vh.ListNL(assignItems)+".\n"+
 			"Definition chain_cases : list chain_case := "+vh.ListNL(chainItems)+".\n")
 	vh.WriteJSON(*out, "cases.json", map[string]interface{}{
-		"collect": collectCases, "fn": fnCases, "expr": exprCases, "assign": assignCases, "chain": chainCases})
+		"collect": collectCases, "fn": fnCases, "expr": exprCases, "assign": assignCases, "chain": chainCases, "clause": clauseCases})
 	var samples []interface{}
 	if len(collectCases) > 0 {
 		samples = append(samples, map[string]interface{}{"kind": "collect", "case": collectCases[len(collectCases)/2]})
@@ -654,7 +734,7 @@ func main() {
 		samples = append(samples, map[string]interface{}{"kind": "chain", "config": c.Cfg, "events": c.Events, "final": c.Result.Vals})
 	}
 	vh.WriteJSON(*out, "summary.json", map[string]interface{}{
-		"collect": len(collectCases), "fn": len(fnCases), "expr": len(exprCases), "assign": len(assignCases), "chain": len(chainCases),
+		"collect": len(collectCases), "fn": len(fnCases), "expr": len(exprCases), "assign": len(assignCases), "chain": len(chainCases), "clause": len(clauseCases),
 		"cases": len(collectCases) + len(fnCases) + len(exprCases) + len(assignCases) + len(chainCases),
 		"distinct_nontrivial": nontriv, "stats": stats, "samples": samples,
 	})
